@@ -233,7 +233,19 @@ func edgeOnly(from, to *ssa.BasicBlock) bool {
 // Facts returns the branch facts that dominate block b, nearest first.
 // Negations are normalised away (UnOp NOT flips polarity).
 func Facts(b *ssa.BasicBlock) []Fact {
-	out := baseFacts(b)
+	out := localFacts(b)
+	if b == nil || importDepth >= 2 {
+		return out
+	}
+	return append(out, importedFacts(b, out)...)
+}
+
+// localFacts: the facts established by branches of b's own function.
+func localFacts(b *ssa.BasicBlock) []Fact {
+	return expandPhiFacts(baseFacts(b))
+}
+
+func expandPhiFacts(out []Fact) []Fact {
 	// `x := a && (b || c); if x {...}` lowers to an If on a phi of booleans:
 	// the phi being true (false) excludes the predecessors that feed the
 	// constant false (true), so the facts common to the remaining
@@ -1490,4 +1502,236 @@ func evalString(v ssa.Value, env map[*ssa.Parameter]string, depth int) (string, 
 		return first, len(rets) > 0
 	}
 	return "", false
+}
+
+// ---- facts imported from helpers -------------------------------------------------
+//
+// A check that moved into a same-package helper still guards the caller: when the success of a
+// call h(args) dominates a block (its error result is nil there, or its bool result is true
+// there), the facts common to every success return of h hold for the arguments. The imported
+// facts are the helper's own conditions with its parameters replaced by the call's arguments, so
+// rules that look at operands keep working. Depth 2.
+
+var importDepth int
+
+type helperSummary struct {
+	errNil []Fact // facts common to all returns whose error result is nil
+	isTrue []Fact // facts common to all returns whose single bool result can be true
+}
+
+var helperSummaries = map[*ssa.Function]*helperSummary{}
+
+func summariseHelper(h *ssa.Function) *helperSummary {
+	if s, ok := helperSummaries[h]; ok {
+		return s
+	}
+	sum := &helperSummary{}
+	helperSummaries[h] = sum // cuts recursion
+	importDepth++
+	defer func() { importDepth-- }()
+	res := h.Signature.Results()
+	intersect := func(cur []Fact, first bool, fs []Fact) []Fact {
+		if first {
+			return fs
+		}
+		var keep []Fact
+		for _, a := range cur {
+			for _, b := range fs {
+				if a.Pol == b.Pol && (a.Cond == b.Cond || sameCond(a.Cond, b.Cond)) {
+					keep = append(keep, a)
+					break
+				}
+			}
+		}
+		return keep
+	}
+	if res.Len() >= 1 && res.At(res.Len()-1).Type().String() == "error" {
+		first := true
+		for _, ret := range Returns(h) {
+			if RetErrKind(ret) != "nil" {
+				continue
+			}
+			sum.errNil = intersect(sum.errNil, first, Facts(ret.Block()))
+			first = false
+		}
+	}
+	if res.Len() == 1 {
+		if b, ok := res.At(0).Type().Underlying().(*types.Basic); ok && b.Kind() == types.Bool {
+			first := true
+			for _, ret := range Returns(h) {
+				v := RetVal(ret, 0)
+				if cb, isC := ConstBool(v); isC && !cb {
+					continue
+				}
+				fs := Facts(ret.Block())
+				if _, isC := ConstBool(v); !isC {
+					c, pol := normCond(v, true)
+					fs = append(fs, expandPhiFacts([]Fact{{Cond: c, Pol: pol}})...)
+				}
+				sum.isTrue = intersect(sum.isTrue, first, fs)
+				first = false
+			}
+		}
+	}
+	return sum
+}
+
+// sameCond: two conditions are the same test (same operator on the same operands / the same
+// predicate call on the same receiver).
+func sameCond(a, b ssa.Value) bool {
+	switch x := a.(type) {
+	case *ssa.BinOp:
+		y, ok := b.(*ssa.BinOp)
+		return ok && x.Op == y.Op && (x.X == y.X || sameExpr(x.X, y.X)) && (x.Y == y.Y || sameExpr(x.Y, y.Y))
+	case *ssa.Call:
+		y, ok := b.(*ssa.Call)
+		if !ok || CalleeOf(x).String() != CalleeOf(y).String() || len(x.Call.Args) != len(y.Call.Args) {
+			return false
+		}
+		if x.Call.IsInvoke() && !(x.Call.Value == y.Call.Value || sameExpr(x.Call.Value, y.Call.Value)) {
+			return false
+		}
+		for i := range x.Call.Args {
+			if !(x.Call.Args[i] == y.Call.Args[i] || sameExpr(x.Call.Args[i], y.Call.Args[i])) {
+				return false
+			}
+		}
+		return true
+	}
+	return false
+}
+
+func importedFacts(b *ssa.BasicBlock, local []Fact) []Fact {
+	fn := b.Parent()
+	if fn == nil || fn.Pkg == nil {
+		return nil
+	}
+	var out []Fact
+	for _, blk := range fn.Blocks {
+		if blk == b || !blk.Dominates(b) {
+			continue
+		}
+		for _, in := range blk.Instrs {
+			c, ok := in.(*ssa.Call)
+			if !ok {
+				continue
+			}
+			h := c.Common().StaticCallee()
+			if h == nil || h == fn || h.Pkg != fn.Pkg || len(h.Blocks) == 0 || h.Parent() != nil {
+				continue
+			}
+			var fs []Fact
+			res := h.Signature.Results()
+			if res.Len() >= 1 && res.At(res.Len()-1).Type().String() == "error" {
+				okNil := false
+				for _, f := range local {
+					if x, isnil, ok := f.FactNil(); ok && isnil && valueFromCall(x, c) {
+						okNil = true
+					}
+				}
+				if okNil {
+					fs = summariseHelper(h).errNil
+				}
+			} else if res.Len() == 1 {
+				for _, f := range local {
+					if f.Cond == ssa.Value(c) && f.Pol {
+						fs = summariseHelper(h).isTrue
+					}
+				}
+			}
+			for _, f := range fs {
+				out = append(out, Fact{Cond: substParams(f.Cond, h, c, 0), Pol: f.Pol, If: f.If})
+			}
+		}
+	}
+	return out
+}
+
+// substParams rewrites v (a value of helper h) in terms of the caller: parameters become the
+// arguments of call c; operators, loads, field addresses and calls over them are shallow copies
+// with substituted operands (type and position are kept). Values that do not mention a parameter
+// are returned as they are.
+func substParams(v ssa.Value, h *ssa.Function, c *ssa.Call, depth int) ssa.Value {
+	if v == nil || depth > 6 {
+		return v
+	}
+	switch x := v.(type) {
+	case *ssa.Parameter:
+		for i, p := range h.Params {
+			if p == x && i < len(c.Call.Args) {
+				return c.Call.Args[i]
+			}
+		}
+		return v
+	case *ssa.BinOp:
+		a, b := substParams(x.X, h, c, depth+1), substParams(x.Y, h, c, depth+1)
+		if a == x.X && b == x.Y {
+			return v
+		}
+		nb := *x
+		nb.X, nb.Y = a, b
+		return &nb
+	case *ssa.UnOp:
+		a := substParams(x.X, h, c, depth+1)
+		if a == x.X {
+			return v
+		}
+		nu := *x
+		nu.X = a
+		return &nu
+	case *ssa.FieldAddr:
+		a := substParams(x.X, h, c, depth+1)
+		if a == x.X {
+			return v
+		}
+		nf := *x
+		nf.X = a
+		return &nf
+	case *ssa.Field:
+		a := substParams(x.X, h, c, depth+1)
+		if a == x.X {
+			return v
+		}
+		nf := *x
+		nf.X = a
+		return &nf
+	case *ssa.Convert:
+		a := substParams(x.X, h, c, depth+1)
+		if a == x.X {
+			return v
+		}
+		nc := *x
+		nc.X = a
+		return &nc
+	case *ssa.ChangeType:
+		a := substParams(x.X, h, c, depth+1)
+		if a == x.X {
+			return v
+		}
+		nc := *x
+		nc.X = a
+		return &nc
+	case *ssa.Call:
+		changed := false
+		nc := *x
+		nc.Call.Args = make([]ssa.Value, len(x.Call.Args))
+		for i, a := range x.Call.Args {
+			nc.Call.Args[i] = substParams(a, h, c, depth+1)
+			if nc.Call.Args[i] != a {
+				changed = true
+			}
+		}
+		if x.Call.IsInvoke() {
+			nv := substParams(x.Call.Value, h, c, depth+1)
+			if nv != x.Call.Value {
+				nc.Call.Value = nv
+				changed = true
+			}
+		}
+		if !changed {
+			return v
+		}
+		return &nc
+	}
+	return v
 }
